@@ -310,7 +310,11 @@ def main():
         dest="output_file",
         action="store",
         nargs="?",
-        type=argparse.FileType("w", encoding="utf-8"),
+        # file names that are not valid UTF-8 reach the report as surrogate
+        # escapes: write them escaped instead of failing the whole report
+        type=argparse.FileType(
+            "w", encoding="utf-8", errors="backslashreplace"
+        ),
         default=sys.stdout,
         help="write report to filename",
     )
